@@ -2,6 +2,7 @@ import vlib
 
 STALE_KEY = "stale-service-id-after-failed-first-syncs"
 MAGLEV_KEY = "maglev-lut-deleted-before-frontends-updated"
+WRAP_KEY = "service-id-reused-after-uint32-wrap"
 
 
 def classify(case_line):
@@ -12,6 +13,9 @@ def classify(case_line):
     # driver emits such a history a second time with the maglev part of the oracle off, so nothing else is masked
     if "maglev-midupdate" in case_line.get("tags", []):
         return MAGLEV_KEY
+    # the scripted history that puts the uint32 id counter at 2^32-1 (through a shim) and adds two services
+    if "scripted:id-wrap" in case_line.get("tags", []):
+        return WRAP_KEY
     return None
 
 
@@ -26,7 +30,7 @@ CFG = dict(
          "meta address, external/internal traffic policy, session affinity, TCP/UDP; a third of the histories with the maglev annotation) with 0-6 endpoints (ready / not ready / "
          "terminating, local or on one of 3 remote nodes); between applies services are added, removed or changed and endpoints "
          "added, removed or change state; an apply may have write failures (a hash predicate on the key, or every write after "
-         "the n-th) and may be followed by a restart (new Syncer over the same maps); 3 scripted histories first. "
+         "the n-th) and may be followed by a restart (new Syncer over the same maps); 4 scripted histories first. "
          "non-trivial = >=10 single writes, a completed apply, and a failed apply, a restart or >=4 frontends; distinct by the "
          "whole history",
     trusted=["Coq 8.16.1 kernel + vm_compute",
@@ -34,7 +38,7 @@ CFG = dict(
              "Go driver harness/C42 (overlay build, tag verif) incl. the recording wrapper around felix/bpf/mock.Map and the "
              "visit-order recorder shim in felix/bpf/proxy"],
     assumptions=["IPv4, no loadBalancerSourceRanges (source-range and black-hole frontends: not modelled - they need a fourth/fifth key field, an exemption of the all-ones count in `consistent`, a conditional Set in the desired map and new cases in every lemma about unit_frontends/spec_frontends; the driver panics if such a key is ever written), no topology hints, no excluded CIDRs, service is not default/kubernetes",
-                 "fewer than 2^32 service ids are allocated: uint32 wrap of nextSvcID is not modelled; c42_id_counter_bounded_partial / c42_startup_counter_bounded_partial make the condition explicit (counter grows by at most the number of applySvc units per Apply)",
+                 "uint32 nextSvcID: Model.v/ModelMg.v count in N, ModelWrap.exec_apply32 has the wrap; they coincide while the counter stays below 2^32 (c42_uint32_model_coincides, c42_id_counter_growth, c42_startup_counter_bound); the checker requires agreement with the uint32 model on every history; beyond the wrap see known finding service-id-reused-after-uint32-wrap; startup with a frontend carrying id 2^32-1 (counter set to id+1 = 0) is not modelled",
                  "a failed map write leaves the map unchanged; nothing but the Syncer writes the maps while it runs",
                  "Maglev LUT map: every write to it is recorded too; after EACH single write of any of the three maps the oracle checks that every maglev-flagged frontend with backends finds a complete table (lutSize 7 in the driver); at the end of a completed sync: table over the ready endpoints, no stale table.  The table contents (consistent hash, C33) are an explicit parameter of the model (the driver computes them with felix/bpf/consistenthash as the syncer does); maglev writes are never made to fail; the driver probes whether the tree uses the pinned or the repaired LUT phase order (k_mgfix)",
                  "cachingmap behaviour (a failed write stays pending, the other writes of the phase go on, the phase reports the error) is the one proved for the CachingMap model in C18 (c18_cache_failed_update_stays_pending, c18_cache_failed_delete_stays_pending, c18_cache_exact_after_failures); cited, not imported",
